@@ -334,6 +334,35 @@ def run_deepcopy_limits(job):
     return [(ckey, True, {"case": "deepcopy-limits", "method": method, "weight": weight, "C": v})], fails, {}
 
 
+def run_pickle(job):
+    """what a worker process receives: pickle.loads(pickle.dumps(x)) of a circuit with awkward floats, changed limits, a released
+    fixed-by-default flag and a label is the same circuit, value for value (the multi-process fit path sends circuits this way)"""
+    import pickle
+    import pyimpspec  # noqa
+    from pyimpspec import parse_cdc
+    cdc = job
+    src = ("import pickle, pyimpspec\nfrom pyimpspec import parse_cdc\n"
+           f"c = parse_cdc({cdc!r})\nes = c.get_elements()\nes[0].set_values(**{{k: 2200.0 / 7.0 for k in list(es[0].get_values())[:1]}})\n"
+           "es[-1].set_fixed(**{k: not v for k, v in es[-1].are_fixed().items()})\nes[0].set_label('a_1')\n"
+           "st = lambda x: [(e.get_values(), e.get_lower_limits(), e.get_upper_limits(), e.are_fixed(), e.get_label()) for e in x.get_elements()]\n"
+           "d = pickle.loads(pickle.dumps(c))\nassert st(d) == st(c), (st(d), st(c))\n")
+    c = parse_cdc(cdc)
+    es = c.get_elements()
+    es[0].set_values(**{k: 2200.0 / 7.0 for k in list(es[0].get_values())[:1]})
+    es[-1].set_fixed(**{k: not v for k, v in es[-1].are_fixed().items()})
+    es[0].set_label("a_1")
+    st = lambda x: [(e.get_values(), e.get_lower_limits(), e.get_upper_limits(), e.are_fixed(), e.get_label()) for e in x.get_elements()]      # noqa: E731
+    ckey = ("pickle", cdc)
+    try:
+        d = pickle.loads(pickle.dumps(c))
+    except Exception as ex:  # noqa
+        return [(ckey, True, None)], [("pickle:raises", "Circuit", f"pickling {cdc}: {type(ex).__name__}: {last_line(ex)}", src)], {}
+    fails = []
+    if st(d) != st(c):
+        fails.append(("pickle:state-differs", "Circuit", f"pickle round trip of {cdc} changed the circuit: {st(c)} -> {st(d)}", src))
+    return [(ckey, True, {"case": "pickle", "cdc": cdc})], fails, {}
+
+
 def last_line(ex):
     lines = str(ex).strip().splitlines()
     return lines[-1][:200] if lines else ""
@@ -369,6 +398,8 @@ def main(a):
                 jobs.append(("run_fit", ("invariants", fam, seed(1, rep, vi, ci), variant, m, w, 300)))
     for m, w in (combos[::9] if quick else combos):
         jobs.append(("run_deepcopy_limits", (m, w)))
+    for cdc in ("R(RC)", "R(C[RW])", "RL(RQ)", "R(RC)(RQ)"):
+        jobs.append(("run_pickle", cdc))
 
     ninv = sum(1 for j in jobs if j[0] == "run_fit" and j[1][0] == "invariants")
     res = Result("C12", f"recovery: {len(FAMILIES)} families x {nrec} seeded parameter sets (R0 over 3 decades, R_k/R0 over 2 decades, time constants over 3.5 decades inside 1e-2..1e5 Hz, 71 points) x start perturbed by up to x3, "
